@@ -399,7 +399,9 @@ pub(super) fn translate_literal(l: Literal, ctx: &Context) -> Result<sql_ast::Ex
             sql_ast::Expr::Value(Value::SingleQuotedString(s.replace('\'', "''")).into())
         }
         Literal::Boolean(b) => sql_ast::Expr::Value(Value::Boolean(b).into()),
+        Literal::Float(f) if f.is_sign_negative() && !f.is_nan() => negative_number(format!("{:?}", -f)),
         Literal::Float(f) => sql_ast::Expr::Value(Value::Number(format!("{f:?}"), false).into()),
+        Literal::Integer(i) if i < 0 => negative_number(format!("{}", i.unsigned_abs())),
         Literal::Integer(i) => sql_ast::Expr::Value(Value::Number(format!("{i}"), false).into()),
         Literal::Date(value) => translate_datetime_literal(sql_ast::DataType::Date, value, ctx),
         Literal::Time(value) => translate_datetime_literal(
@@ -473,6 +475,15 @@ pub(super) fn translate_literal(l: Literal, ctx: &Context) -> Result<sql_ast::Ex
             }
         }
     })
+}
+
+/// A negative number is a minus sign applied to its magnitude, so that it binds
+/// like one: `-x` with `x = -5` must not become `--5`, which starts a comment.
+fn negative_number(magnitude: String) -> sql_ast::Expr {
+    sql_ast::Expr::UnaryOp {
+        op: UnaryOperator::Minus,
+        expr: Box::new(sql_ast::Expr::Value(Value::Number(magnitude, false).into())),
+    }
 }
 
 fn translate_datetime_literal(
